@@ -105,6 +105,10 @@ pub enum Directed {
     IntBoundaries,
     EmptyStrings,
     SharedStrings,
+    /// a table with this many columns (the format's limit is 32)
+    Wide(usize),
+    /// a table with this many rows (its stream spans several 8 KiB buffers)
+    Tall(u32),
 }
 
 fn directed(d: &Directed) -> Check {
@@ -172,6 +176,34 @@ fn directed_mode(d: &Directed, mode: CloseMode) -> Check {
             pkg.insert_rows(Insert::into("T").row(vec![Value::Int(1), Value::Str(String::new()), Value::Str("x".into())]).row(vec![Value::Int(2), Value::Null, Value::Str(String::new())]))
                 .map_err(|e| err("insert", e))?;
         }
+        Directed::Wide(n) => {
+            let mut cols = vec![Column::build("k").primary_key().int16()];
+            for i in 1..*n {
+                cols.push(match i % 3 {
+                    0 => Column::build(format!("c{i}")).nullable().int32(),
+                    1 => Column::build(format!("c{i}")).nullable().string(0),
+                    _ => Column::build(format!("c{i}")).nullable().int16(),
+                });
+            }
+            pkg.create_table("Wide", cols).map_err(|e| err("create_table", e))?;
+            let row = |k: i32| -> Vec<Value> {
+                let mut r = vec![Value::Int(k)];
+                for i in 1..*n {
+                    r.push(match i % 3 {
+                        0 => Value::Int(k * 100_000 + i as i32),
+                        1 => if (i + k as usize) % 4 == 0 { Value::Null } else { Value::Str(format!("s{k}.{i}")) },
+                        _ => Value::Int(i as i32 - k),
+                    });
+                }
+                r
+            };
+            pkg.insert_rows(Insert::into("Wide").rows((1..=3).map(row).collect())).map_err(|e| err("insert", e))?;
+        }
+        Directed::Tall(n) => {
+            pkg.create_table("Tall", vec![Column::build("k").primary_key().int32(), Column::build("a").nullable().int16(), Column::build("v").nullable().string(0)]).map_err(|e| err("create_table", e))?;
+            let rows: Vec<Vec<Value>> = (0..*n as i32).map(|i| vec![Value::Int(i * 7 - 1000), Value::Int(i % 30_000 - 500), if i % 5 == 0 { Value::Null } else { Value::Str(format!("w{}", i % 97)) }]).collect();
+            pkg.insert_rows(Insert::into("Tall").rows(rows)).map_err(|e| err("insert", e))?;
+        }
         Directed::SharedStrings => {
             // one string referenced from cells of two tables and from the catalog
             pkg.create_table("Name", vec![Column::build("Name").primary_key().string(16), Column::build("v").nullable().string(16)]).map_err(|e| err("create_table", e))?;
@@ -217,6 +249,12 @@ fn directed_cases(tier_thorough: bool) -> Vec<Directed> {
             v.push(Directed::LongString(n));
         }
     }
+    for n in [31usize, 32] {
+        v.push(Directed::Wide(n));
+    }
+    for n in [1_000u32, 3_000] {
+        v.push(Directed::Tall(n));
+    }
     v.push(Directed::IntBoundaries);
     v.push(Directed::EmptyStrings);
     v.push(Directed::SharedStrings);
@@ -226,7 +264,7 @@ fn directed_cases(tier_thorough: bool) -> Vec<Directed> {
 pub fn run(ctx: &Ctx) -> Report {
     let mut rep = Report::new(
         "exploration",
-        "late-bound operation sequences (create/drop table, insert, update, delete, stream write/remove, the ten summary setters and clearers, database and summary code-page switches over all 26 pages, flush) with reopen points in each of the three close modes (flush + copy of the live medium = crash right after flush; into_inner; drop); a sweep driver that reruns each of its sequences with a reopen after every position in every mode; directed cases per code page (strings from the page's repertoire in cells and summary), per package type, per long-string boundary length, integer boundaries, empty strings, shared strings; every case ends with three more save/reopen cycles without change. Oracle: API snapshot just before closing == snapshot after Package::open(saved bytes), modulo ''==null. Non-trivial = at least one successful mutation followed by a close; distinct by hash of the op list.",
+        "late-bound operation sequences (create/drop table, insert, update, delete, stream write/remove, the ten summary setters and clearers, database and summary code-page switches over all 26 pages, flush) with reopen points in each of the three close modes (flush + copy of the live medium = crash right after flush; into_inner; drop); a sweep driver that reruns each of its sequences with a reopen after every position in every mode; directed cases per code page (strings from the page's repertoire in cells and summary), per package type, per long-string boundary length, integer boundaries, empty strings, shared strings, tables of 31 and 32 columns, tables of 1,000 and 3,000 rows; every case ends with three more save/reopen cycles without change. Oracle: API snapshot just before closing == snapshot after Package::open(saved bytes), modulo ''==null. Non-trivial = at least one successful mutation followed by a close; distinct by hash of the op list.",
     );
     rep.assumptions.push("summary strings are drawn from the summary code page's repertoire; architecture strings contain no ';'; set_creation_time_to_now is never generated".into());
     let mut st = Stats::new();
